@@ -48,8 +48,14 @@ class _GaussianLikelihoodBase(Likelihood):
         nan_policy = settings.observation_nan_policy.value()
         if nan_policy == "mask":
             observed = settings.observation_nan_policy._get_observed(target, input.event_shape)
+            if len(input.event_shape) == 2 and not getattr(input, "_interleaved", True):
+                # The covariance of a non-interleaved multitask distribution is ordered task by task: flatten everything that way
+                observed, target, noise = observed.mT, target.mT, noise.mT
+                mean = input.mean.mT
+            else:
+                mean = input.mean
             input = MultivariateNormal(
-                mean=input.mean[..., observed],
+                mean=mean[..., observed],
                 covariance_matrix=MaskedLinearOperator(
                     input.lazy_covariance_matrix, observed.reshape(-1), observed.reshape(-1)
                 ),
@@ -87,8 +93,14 @@ class _GaussianLikelihoodBase(Likelihood):
         nan_policy = settings.observation_nan_policy.value()
         if nan_policy == "mask":
             observed = settings.observation_nan_policy._get_observed(observations, marginal.event_shape)
+            if len(marginal.event_shape) == 2 and not getattr(marginal, "_interleaved", True):
+                # The covariance of a non-interleaved multitask distribution is ordered task by task: flatten everything that way
+                observed, observations = observed.mT, observations.mT
+                mean = marginal.mean.mT
+            else:
+                mean = marginal.mean
             marginal = MultivariateNormal(
-                mean=marginal.mean[..., observed],
+                mean=mean[..., observed],
                 covariance_matrix=MaskedLinearOperator(
                     marginal.lazy_covariance_matrix, observed.reshape(-1), observed.reshape(-1)
                 ),
